@@ -702,7 +702,7 @@ func typeShort(t types.Type) string {
 // mayBlockLong: the function (or repo functions it statically calls, 3 levels) contains time.Sleep, time.After in a
 // select, or dials a connection.
 func mayBlockLong(p *engine.Prog, f *ssa.Function, depth int, seen map[*ssa.Function]bool) (bool, string) {
-	if f == nil || f.Blocks == nil || seen[f] || depth > 3 {
+	if f == nil || f.Blocks == nil || seen[f] || depth > 5 {
 		return false, ""
 	}
 	seen[f] = true
